@@ -137,7 +137,7 @@ def read(self, size=-1):
         "I_ls1(self)",
     ]
     reg.contract(
-        "werkzeug/wsgi.py:LimitedStream.readinto", prop=P, self_model=LS,
+        "werkzeug/wsgi.py:LimitedStream.readinto", prop="C09,C10", self_model=LS,
         cases=[{"b": "bytearray"}, {"b": "memoryview"}],
         returns="int", modifies=["self._pos", "self._stream.pos", "self._stream.nzero", "b"],
         raise_modifies=["self._stream.pos", "self._stream.nzero", "self._stream.nerr"],
@@ -152,7 +152,7 @@ def read(self, size=-1):
                         "RequestEntityTooLarge": ["self._pos == old(self._pos)", "self._stream.pos == old(self._stream.pos)"]},
     )
     reg.contract(
-        "werkzeug/wsgi.py:LimitedStream.readall", modifies=["self._pos", "self._stream.pos", "self._stream.nzero"], raise_modifies=["self._pos", "self._stream.pos", "self._stream.nzero", "self._stream.nerr"], prop=P, self_model=LS,
+        "werkzeug/wsgi.py:LimitedStream.readall", modifies=["self._pos", "self._stream.pos", "self._stream.nzero"], raise_modifies=["self._pos", "self._stream.pos", "self._stream.nzero", "self._stream.nerr"], prop="C09,C10", self_model=LS,
         returns="bytes",
         requires=["I_ls1(self)"],
         ensures=[
@@ -178,7 +178,7 @@ def read(self, size=-1):
         }},
     )
     reg.contract(
-        "werkzeug/wsgi.py:LimitedStream.exhaust", prop=P, self_model=LS,
+        "werkzeug/wsgi.py:LimitedStream.exhaust", prop="C09,C10", self_model=LS,
         requires=["I_ls1(self)"],
         ensures=["result == self._stream.data[old(self._stream.pos):self._stream.pos]",
                  "self._pos == old(self._pos) + len(result)", "I_ls1(self)"],
